@@ -63,7 +63,12 @@ use crate::reg::{Class, In, Par};
 pub trait RefM {
 	/// `impl_out` is the implementation's output of this step; it is used only to re-synchronise a
 	/// recursive reference after a step where the formula was undefined within the allowance
+	/// (NaN = not available)
 	fn next(&mut self, x: &In, impl_out: f64) -> Ap;
+	/// scalar input given in f64 (used by the indicator references, whose intermediate values are not ValueType)
+	fn next_f(&mut self, x: f64, impl_out: f64) -> Ap {
+		self.next(&In::V(x as V), impl_out)
+	}
 }
 
 fn inv(x: &In) -> f64 {
@@ -190,8 +195,11 @@ pub struct RefFir {
 	pub n: usize,
 }
 impl RefM for RefFir {
-	fn next(&mut self, x: &In, _o: f64) -> Ap {
-		self.h.push(inv(x));
+	fn next(&mut self, x: &In, o: f64) -> Ap {
+		self.next_f(inv(x), o)
+	}
+	fn next_f(&mut self, xin: f64, _o: f64) -> Ap {
+		self.h.push(xin);
 		let (v, amp) = weighted(&self.h, &self.w);
 		if !amp.is_finite() {
 			return Ap::undefined();
@@ -206,8 +214,11 @@ pub struct RefTrima {
 	n: usize,
 }
 impl RefM for RefTrima {
-	fn next(&mut self, x: &In, _o: f64) -> Ap {
-		self.h.push(inv(x));
+	fn next(&mut self, x: &In, o: f64) -> Ap {
+		self.next_f(inv(x), o)
+	}
+	fn next_f(&mut self, xin: f64, _o: f64) -> Ap {
+		self.h.push(xin);
 		let n = self.n;
 		self.inner.push(ksum(self.h.window(n)) / n as f64);
 		let t = self.inner.count;
@@ -222,8 +233,11 @@ pub struct RefHma {
 	n: usize,
 }
 impl RefM for RefHma {
-	fn next(&mut self, x: &In, _o: f64) -> Ap {
-		self.h.push(inv(x));
+	fn next(&mut self, x: &In, o: f64) -> Ap {
+		self.next_f(inv(x), o)
+	}
+	fn next_f(&mut self, xin: f64, _o: f64) -> Ap {
+		self.h.push(xin);
 		let n = self.n;
 		let (w1, _) = weighted(&self.h, &wma_weights(n / 2));
 		let (w2, _) = weighted(&self.h, &wma_weights(n));
@@ -268,8 +282,11 @@ pub struct RefWin {
 	kind: &'static str,
 }
 impl RefM for RefWin {
-	fn next(&mut self, x: &In, _o: f64) -> Ap {
-		self.h.push(inv(x));
+	fn next(&mut self, x: &In, o: f64) -> Ap {
+		self.next_f(inv(x), o)
+	}
+	fn next_f(&mut self, xin: f64, _o: f64) -> Ap {
+		self.h.push(xin);
 		let n = self.n;
 		let nf = n as f64;
 		let t = self.h.t() as f64;
@@ -349,8 +366,11 @@ pub struct RefConv {
 	w: Vec<f64>,
 }
 impl RefM for RefConv {
-	fn next(&mut self, x: &In, _o: f64) -> Ap {
-		self.h.push(inv(x));
+	fn next(&mut self, x: &In, o: f64) -> Ap {
+		self.next_f(inv(x), o)
+	}
+	fn next_f(&mut self, xin: f64, _o: f64) -> Ap {
+		self.h.push(xin);
 		let m = self.w.len();
 		// last weight on the newest value
 		let num = ksum((0..m).map(|i| self.w[m - 1 - i] * self.h.ago(i)));
@@ -359,6 +379,15 @@ impl RefM for RefConv {
 		let numa = Ap::new(num, C * EPS * wabs * self.h.mag * (m as f64 + 4.0) + crate::ap::TINY);
 		let dena = Ap::new(den, C * EPS * wabs * (m as f64 + 2.0));
 		numa / dena
+	}
+}
+
+/// rounding term of a recurrence step: exactly zero when everything involved is exactly zero
+fn tk(x: f64) -> f64 {
+	if x == 0.0 {
+		0.0
+	} else {
+		x + crate::ap::TINY
 	}
 }
 
@@ -371,20 +400,23 @@ pub struct RefEma {
 	e: [f64; 3],
 }
 impl RefM for RefEma {
-	fn next(&mut self, x: &In, _o: f64) -> Ap {
-		let x = inv(x);
+	fn next(&mut self, x: &In, o: f64) -> Ap {
+		self.next_f(inv(x), o)
+	}
+	fn next_f(&mut self, xin: f64, _o: f64) -> Ap {
+		let x = xin;
 		let a = self.alpha;
 		let k = C * EPS * 3.0;
 		// the update y + a (x - y) rounds at the magnitude of x, of the old y and of the new y
 		let o0 = self.s[0].abs();
 		self.s[0] += a * (x - self.s[0]);
-		self.e[0] = (1.0 - a) * self.e[0] + k * (x.abs() + o0 + self.s[0].abs()) + crate::ap::TINY;
+		self.e[0] = (1.0 - a) * self.e[0] + tk(k * (x.abs() + o0 + self.s[0].abs()));
 		let o1 = self.s[1].abs();
 		self.s[1] += a * (self.s[0] - self.s[1]);
-		self.e[1] = (1.0 - a) * self.e[1] + a * self.e[0] + k * (self.s[0].abs() + o1 + self.s[1].abs()) + crate::ap::TINY;
+		self.e[1] = (1.0 - a) * self.e[1] + a * self.e[0] + tk(k * (self.s[0].abs() + o1 + self.s[1].abs()));
 		let o2 = self.s[2].abs();
 		self.s[2] += a * (self.s[1] - self.s[2]);
-		self.e[2] = (1.0 - a) * self.e[2] + a * self.e[1] + k * (self.s[1].abs() + o2 + self.s[2].abs()) + crate::ap::TINY;
+		self.e[2] = (1.0 - a) * self.e[2] + a * self.e[1] + tk(k * (self.s[1].abs() + o2 + self.s[2].abs()));
 		let (e, ee, eee) = (self.s[0], self.s[1], self.s[2]);
 		let (r1, r2, r3) = (self.e[0], self.e[1], self.e[2]);
 		let (v, rad) = match self.kind {
@@ -418,10 +450,10 @@ impl RefM for RefTsi {
 		let stage = |s: &mut [f64; 2], e: &mut [f64; 2], input: f64, al: f64, ash: f64| {
 			let o0 = s[0].abs();
 			s[0] += al * (input - s[0]);
-			e[0] = (1.0 - al) * e[0] + al * e0 + k * (input.abs() + o0 + s[0].abs()) + crate::ap::TINY;
+			e[0] = (1.0 - al) * e[0] + al * e0 + tk(k * (input.abs() + o0 + s[0].abs()));
 			let o1 = s[1].abs();
 			s[1] += ash * (s[0] - s[1]);
-			e[1] = (1.0 - ash) * e[1] + ash * e[0] + k * (s[0].abs() + o1 + s[1].abs()) + crate::ap::TINY;
+			e[1] = (1.0 - ash) * e[1] + ash * e[0] + tk(k * (s[0].abs() + o1 + s[1].abs()));
 		};
 		stage(&mut self.m, &mut self.me, mom, self.a_long, self.a_short);
 		stage(&mut self.a, &mut self.ae, mom.abs(), self.a_long, self.a_short);
@@ -443,8 +475,11 @@ pub struct RefVidya {
 	dyadic: bool,
 }
 impl RefM for RefVidya {
-	fn next(&mut self, x: &In, impl_out: f64) -> Ap {
-		let xv = inv(x);
+	fn next(&mut self, x: &In, o: f64) -> Ap {
+		self.next_f(inv(x), o)
+	}
+	fn next_f(&mut self, xin: f64, impl_out: f64) -> Ap {
+		let xv = xin;
 		self.h.push(xv);
 		self.dyadic &= xv.abs() <= 16_777_216.0 && (xv * 65536.0).fract() == 0.0;
 		let n = self.n;
